@@ -173,13 +173,22 @@ Fixpoint dcell_from (sm : list (list nat)) (drows : list (list nat)) (r c : nat)
       end
   end.
 
-Definition score_rows_body (C : nat) (sm : list (list nat)) (ddata : list (list nat)) (a e : nat)
-  : res dmatrix :=
-  rmapM (fun r => rmapM (fun c => dcell_from sm ddata r c 0) (seq 0 C)) (seq a (e - a)).
+(* one row of u8 scores: for col in 0..C *)
+Definition drow (C : nat) (sm : list (list nat)) (ddata : list (list nat)) (r : nat) : res (list nat) :=
+  rmapM (fun c => dcell_from sm ddata r c 0) (seq 0 C).
+
+(* [dtab] caches [drow r] for the sequence rows (a pure function of r): entry r is
+   [drow .. r]; rows outside the table are computed directly (tab_get_eq in
+   ConcreteProofs.v: the cache never changes a result) *)
+Definition tab_get {A} (f : nat -> A) (tab : list A) (i : nat) : A := nth i tab (f i).
+
+Definition score_rows_body (C : nat) (sm : list (list nat)) (ddata : list (list nat))
+           (dtab : list (res (list nat))) (a e : nat) : res dmatrix :=
+  rmapM (tab_get (drow C sm ddata) dtab) (seq a (e - a)).
 
 (* Score<u8, Dna, C>::score_rows_into for Pipeline<Dna, Dispatch>, rows = a..e *)
 Definition c_score_rows (am : arm) (C : nat) (sm : list (list nat)) (wrap L : nat)
-           (ddata : list (list nat)) (a e : nat) : res dmatrix :=
+           (ddata : list (list nat)) (dtab : list (res (list nat))) (a e : nat) : res dmatrix :=
   let M := length ddata in
   match am with
   | Avx2 =>
@@ -187,15 +196,16 @@ Definition c_score_rows (am : arm) (C : nat) (sm : list (list nat)) (wrap L : na
       else if wrap <? M - 1 then Panic 33
       else if (L <? M) || (e <=? a) then Ok []
       else if length sm <? e + M - 1 then Panic 34
-      else score_rows_body C sm ddata a e
+      else score_rows_body C sm ddata dtab a e
   | _ =>
       if (L <? M) || (e <=? a) then Ok []
-      else score_rows_body C sm ddata a e
+      else score_rows_body C sm ddata dtab a e
   end.
 
 (* ---------- the scanner on concrete data ---------- *)
 
-(* what Scanner::new computes / borrows *)
+(* what Scanner::new computes / borrows, plus two caches of pure functions
+   (score_position at the valid positions, u8 scores of the sequence rows) *)
 Record cenv := {
   ce_C : nat;
   ce_pssm : list (list F32.t);
@@ -203,13 +213,19 @@ Record cenv := {
   ce_wrap : nat;
   ce_dm : dmt;
   ce_sm : list (list nat);
+  ce_ptab : list (res F32.t);
+  ce_dtab : list (res (list nat));
 }.
 
 (* Scanner::new(&pssm, &striped): discretises eagerly *)
 Definition c_env (K C : nat) (pssm : list (list F32.t)) (sq : list nat) (wrap : nat) : res cenv :=
   dm <- to_discrete K pssm ;;
-  Ok {| ce_C := C; ce_pssm := pssm; ce_L := length sq; ce_wrap := wrap; ce_dm := dm;
-        ce_sm := smatrix K C sq wrap |}.
+  let sm := smatrix K C sq wrap in
+  let L := length sq in
+  Ok {| ce_C := C; ce_pssm := pssm; ce_L := L; ce_wrap := wrap; ce_dm := dm;
+        ce_sm := sm;
+        ce_ptab := map (c_score_position sm wrap pssm) (seq 0 ((L + 1) - length pssm));
+        ce_dtab := map (drow C sm (d_data dm)) (seq 0 (length sm - wrap)) |}.
 
 (* seq.matrix().rows().saturating_sub(seq.wrap()) *)
 Definition ce_R (v : cenv) : nat := length (ce_sm v) - ce_wrap v.
@@ -217,9 +233,9 @@ Definition ce_R (v : cenv) : nat := length (ce_sm v) - ce_wrap v.
 Definition ce_Lm (v : cenv) : nat := (ce_L v + 1) - length (ce_pssm v).
 
 Definition ce_score_position (v : cenv) : nat -> res F32.t :=
-  c_score_position (ce_sm v) (ce_wrap v) (ce_pssm v).
+  tab_get (c_score_position (ce_sm v) (ce_wrap v) (ce_pssm v)) (ce_ptab v).
 Definition ce_score_rows (v : cenv) (am : arm) : nat -> nat -> res dmatrix :=
-  c_score_rows am (ce_C v) (ce_sm v) (ce_wrap v) (ce_L v) (d_data (ce_dm v)).
+  c_score_rows am (ce_C v) (ce_sm v) (ce_wrap v) (ce_L v) (d_data (ce_dm v)) (ce_dtab v).
 Definition ce_scale (v : cenv) : F32.t -> nat := c_scale (ce_dm v).
 
 Definition fhit : Type := (nat * F32.t)%type.
@@ -240,9 +256,18 @@ Definition ce_max_after (v : cenv) (am : arm) (thr : F32.t) (B k : nat) : res (o
   max_after F32.ge F32.gt F32.eq F32.is_nan (ce_scale v) (ce_score_position v) (ce_score_rows v am)
             (ce_R v) (ce_Lm v) B thr k.
 
+(* the same, also returning the hits consumed by the k calls of next() *)
+Definition ce_take_max (v : cenv) (am : arm) (thr : F32.t) (B k : nat)
+  : res (list fhit * res (option fhit)) :=
+  r <- take_k F32.ge F32.is_nan (ce_scale v) (ce_score_position v) (ce_score_rows v am)
+             (ce_R v) (ce_Lm v) B thr k init ;;
+  Ok (fst r, smax F32.ge F32.gt F32.eq F32.is_nan (ce_scale v) (ce_score_position v)
+                  (ce_score_rows v am) (ce_R v) (ce_Lm v) B thr (snd r)).
+
 (* brute force: score_position at every valid position *)
 Definition ce_scores (v : cenv) : list (res F32.t) :=
   map (ce_score_position v) (seq 0 (ce_Lm v)).
+(* (= ce_ptab v, see ce_scores_tab in ConcreteProofs.v; the driver reads the cache) *)
 
 (* u8 score of one position (DiscreteMatrix::score_position), for diagnostics *)
 Definition ce_dscore (v : cenv) (pos : nat) : res nat :=
